@@ -1,7 +1,7 @@
 """Property id -> check function."""
 import json
 
-from . import addr_checks, cert_checks, client_checks, conn_checks, data_checks, gen_checks, listen_checks
+from . import addr_checks, bridge_checks, cert_checks, client_checks, conn_checks, data_checks, gen_checks, listen_checks
 from .common import *
 
 CHECKS = {
@@ -22,6 +22,7 @@ CHECKS = {
     "C15": listen_checks.check_C15,
     "C16": addr_checks.check_C16,
     "C17": data_checks.check_C17,
+    "C18": bridge_checks.check_C18,
     "C19": cert_checks.check_C19,
     "C20": client_checks.check_C20,
 }
